@@ -1,0 +1,9 @@
+//go:build verif
+
+package keeper
+
+// Verification hook (build tag `verif` only): full dump of the params held by the deliver-side
+// in-memory aggregator context (chains, tokens, sources, rules, token feeders, scalars).
+
+// VerifDumpAgcParams dumps agc.params field by field ("AGC:nil" when the context is not initialised).
+func VerifDumpAgcParams() string { return agc.VerifDumpParams() }
